@@ -54,4 +54,15 @@ PROPS = {
         assumptions=["peer ids of 38 bytes"],
         shards={"quick": 8, "thorough": 16},
     ),
+    "C10": dict(
+        pkg="pb", test="TestVerifC10", model="C10", level="proof", stateless=True, diff_is_failure=True,
+        nontrivial_line=lambda l: (":0" in l) or ("rec=-" in l) or ("type=99" in l),
+        rule="every line is one ProtocolMessenger call answered with a generated response: the full table of "
+             "method x response type x record shape (absent / key mismatch / value mismatch) and random peer "
+             "lists (huge lists, oversized and undecodable addresses, empty/600-byte ids, arbitrary enum values); "
+             "non-trivial = a non-default branch (field missing or mismatched, unknown enum, undecodable address); "
+             "distinct = distinct line text",
+        trusted=["protobuf and multiaddr codecs", "the message sender (C11) delivers the response unchanged"],
+        exhaustive={"quick": False, "thorough": False},
+    ),
 }
